@@ -24,7 +24,10 @@ TRIPLES = [("cidar.CIDAREntryVector", "cidar.CIDARProduct", "cidar.CIDAREntry"),
            ("ecoflex.EcoFlexDeviceVector", "ecoflex.EcoFlexCassette", "ecoflex.EcoFlexDevice"),
            ("moclo.MoCloEntryVector", "moclo.MoCloProduct", "moclo.MoCloEntry"),
            ("moclo.MoCloCassetteVector", "moclo.MoCloEntry", "moclo.MoCloCassette"),
-           ("ytk.YTKEntryVector", "ytk.YTKProduct", "ytk.YTKEntry")]
+           ("ytk.YTKEntryVector", "ytk.YTKProduct", "ytk.YTKEntry"),
+           # the kits' levels form a loop: a device is itself a module of the cassette level
+           ("cidar.CIDARCassetteVector", "cidar.CIDARDevice", "cidar.CIDARCassette"),
+           ("ecoflex.EcoFlexCassetteVector", "ecoflex.EcoFlexDevice", "ecoflex.EcoFlexCassette")]
 
 
 def sites(wd, enz):
@@ -79,7 +82,7 @@ def build(rng, triple):
                 break
         ovs = [oo, o3]
     else:
-        nm = rng.randint(1, 3)
+        nm = rng.randint(1, 3) if rng.random() < 0.85 else rng.randint(4, 7)     # a kit fixes no number of positions
         ovs = gen.distinct_overhangs(rng, k, nm + 1, forbid)
         if len(ovs) == nm + 1 and nm >= 2 and rng.random() < 0.3:
             # the vector closes on the reverse complement of an inner junction (legal: only start overhangs pair up)
